@@ -55,12 +55,14 @@ static void hook(const char *name, long a, long b) {
 
 static int g_cb_delay_pct = 0;
 static void sink(const void *p, size_t n) {
+    S().arrive("drv.cb", "B", 0);                 // harness-level scheduling point: the sink callback is entered
     emit(J("cb_begin") + kv("n", (long long)n) + ",\"runs\":" + runs_of((const uint8_t *)p, n) + "}");
     if (g_cb_delay_pct) {
         static vh::Rng rng(12345);
-        if ((int)rng.below(100) < g_cb_delay_pct) std::this_thread::sleep_for(std::chrono::microseconds(rng.range(1, 400)));
+        if ((int)rng.below(100) < g_cb_delay_pct) std::this_thread::sleep_for(std::chrono::microseconds(rng.below(10) == 0 ? rng.range(1000, 4000) : rng.range(1, 400)));
     }
     emit(J("cb_end") + "}");
+    S().pass("drv.cb", "B");
 }
 
 static void producer(AsyncPipe *pipe, int p, std::vector<long long> sizes, bool lockless) {
@@ -70,6 +72,8 @@ static void producer(AsyncPipe *pipe, int p, std::vector<long long> sizes, bool 
         std::unique_ptr<uint8_t[]> data(new uint8_t[len ? len : 1]);       // exact-size block: over-reads are visible to ASan
         for (long long i = 0; i < len; ++i) data[i] = (uint8_t)((p * 37 + off + i) % P);
         off += len;
+        S().arrive("drv.append", "P", 0);             // harness-level scheduling point before the call (outside the pipe's mutexes)
+        S().pass("drv.append", "P");
         if (!lockless) pipe->append(data.get(), (size_t)len);
         else {      // the "lockless" API: two pieces under one appendLock()
             long long h = len / 2;
